@@ -537,3 +537,196 @@ Proof.
   destruct (keyfuncs ks) as [|k kfs] eqn:K; [discriminate|].
   destruct (has_default (k :: kfs)); [discriminate|]. inversion H. apply group_by_spec_tree. discriminate.
 Qed.
+
+(* ------------------------------------------------------------------ todict *)
+Lemma map_fst_dict_set {V} k (v : V) d : map fst (dict_set k v d) = add_key (map fst d) k.
+Proof.
+  unfold add_key. induction d as [|[a w] r IH]; [reflexivity|]. cbn [dict_set map fst existsb].
+  rewrite (pv_eqb_sym k a). destruct (pv_eqb a k) eqn:E; cbn [orb map fst]; [reflexivity|].
+  rewrite IH. destruct (existsb (pv_eqb k) (map fst r)); reflexivity.
+Qed.
+Lemma pv_assoc_dict_set {V} k k2 (v : V) d :
+  pv_assoc k2 (dict_set k v d) = if pv_eqb k k2 then Some v else pv_assoc k2 d.
+Proof.
+  induction d as [|[a w] r IH]; cbn [dict_set pv_assoc].
+  - destruct (pv_eqb k k2); reflexivity.
+  - destruct (pv_eqb a k) eqn:E; cbn [pv_assoc].
+    + apply pv_eqb_eq in E. subst a. destruct (pv_eqb k k2); reflexivity.
+    + rewrite IH. destruct (pv_eqb k k2) eqn:E2; [|reflexivity]. apply pv_eqb_eq in E2. subst k2. rewrite E. reflexivity.
+Qed.
+Lemma todict_fold objs : forall (d : list (pv * elem)),
+  let d' := fold_left (fun d x => dict_set (mget k_id x) x d) objs d in
+  map fst d' = fold_left add_key (map (mget k_id) objs) (map fst d) /\
+  forall k, pv_assoc k d' =
+            fold_left (fun acc x => if pv_eqb (mget k_id x) k then Some x else acc) objs (pv_assoc k d).
+Proof.
+  induction objs as [|x r IH]; intros d; cbn [fold_left map]; [split; reflexivity|].
+  destruct (IH (dict_set (mget k_id x) x d)) as [H1 H2]. split.
+  - rewrite H1, map_fst_dict_set. reflexivity.
+  - intros k. rewrite H2, pv_assoc_dict_set. reflexivity.
+Qed.
+(* {x.id: x for x in objs}: keys in order of first occurrence, each bound to the LAST element carrying it *)
+Lemma todict_spec objs :
+  map fst (m_todict objs) = first_occ (map (mget k_id) objs) /\
+  forall k, pv_assoc k (m_todict objs) = last_with k objs.
+Proof. destruct (todict_fold objs []) as [H1 H2]. split; [exact H1|exact H2]. Qed.
+Lemma last_with_snoc k objs x :
+  last_with k (objs ++ [x]) = if pv_eqb (mget k_id x) k then Some x else last_with k objs.
+Proof. unfold last_with. rewrite fold_left_app. reflexivity. Qed.
+
+(* ------------------------------------------------------------------ element equality is an equivalence *)
+Lemma assoc_In {V} k (m : list (str * V)) v : assoc k m = Some v -> In (k, v) m.
+Proof.
+  induction m as [|[a w] r IH]; cbn [assoc]; [discriminate|].
+  destruct (str_eqb a k) eqn:E; [|intros H; right; apply IH, H].
+  apply str_eqb_eq in E. subst a. intros H. inversion H. left. reflexivity.
+Qed.
+Lemma In_assoc_some {V} k v (m : list (str * V)) : In (k, v) m -> assoc k m <> None.
+Proof.
+  induction m as [|[a w] r IH]; cbn [assoc]; [intros []|]. intros [H|H].
+  - inversion H. subst. rewrite str_eqb_refl. discriminate.
+  - destruct (str_eqb a k); [discriminate|apply IH, H].
+Qed.
+Lemma nodup_assoc {V} k v (m : list (str * V)) : nodup_keys m = true -> In (k, v) m -> assoc k m = Some v.
+Proof.
+  induction m as [|[a w] r IH]; cbn [nodup_keys assoc]; [intros _ []|].
+  destruct (assoc a r) eqn:A; [discriminate|]. intros Hn [H|H].
+  - inversion H. subst. rewrite str_eqb_refl. reflexivity.
+  - destruct (str_eqb a k) eqn:E; [|apply IH; assumption].
+    apply str_eqb_eq in E. subst a. exfalso. apply (In_assoc_some _ _ _ H). exact A.
+Qed.
+Lemma nodup_keys_NoDup {V} (m : list (str * V)) : nodup_keys m = true -> NoDup (map fst m).
+Proof.
+  induction m as [|[a w] r IH]; cbn [nodup_keys map fst]; [constructor|].
+  destruct (assoc a r) eqn:A; [discriminate|]. intros Hn. constructor; [|apply IH, Hn].
+  intros Hin. apply in_map_iff in Hin. destruct Hin as ([a' w'] & E & Hin). cbn in E. subst a'.
+  apply (In_assoc_some _ _ _ Hin). exact A.
+Qed.
+Definition meta_sub (a b : list (str * pv)) : Prop := forall k v, In (k, v) a -> assoc k b = Some v.
+Lemma meta_eqb_sub a b : meta_eqb a b = true <-> length a = length b /\ meta_sub a b.
+Proof.
+  unfold meta_eqb, meta_sub. rewrite andb_true_iff, Nat.eqb_eq, forallb_forall. split; intros [H1 H2]; split; auto.
+  - intros k v Hin. specialize (H2 (k, v) Hin). cbn in H2. destruct (assoc k b) as [v'|]; [|discriminate].
+    apply pv_eqb_eq in H2. congruence.
+  - intros [k v] Hin. cbn. rewrite (H2 k v Hin). apply pv_eqb_refl.
+Qed.
+Lemma meta_eqb_refl a : nodup_keys a = true -> meta_eqb a a = true.
+Proof. intros Hn. apply meta_eqb_sub. split; [reflexivity|]. intros k v Hin. apply nodup_assoc; assumption. Qed.
+Lemma meta_eqb_sym a b : nodup_keys a = true -> nodup_keys b = true -> meta_eqb a b = true -> meta_eqb b a = true.
+Proof.
+  intros Ha Hb H. apply meta_eqb_sub in H. destruct H as [Hl Hs]. apply meta_eqb_sub. split; [symmetry; exact Hl|].
+  assert (Hincl : incl (map fst b) (map fst a)).
+  { apply NoDup_length_incl; [apply nodup_keys_NoDup, Ha | rewrite !map_length, Hl; apply le_n|].
+    intros k Hk. apply in_map_iff in Hk. destruct Hk as ([k' v] & E & Hin). cbn in E. subst k'.
+    apply Hs in Hin. apply assoc_In in Hin. apply in_map_iff. exists (k, v). auto. }
+  intros k v' Hin.
+  assert (Hk : In k (map fst a)) by (apply Hincl, in_map_iff; exists (k, v'); auto).
+  apply in_map_iff in Hk. destruct Hk as ([k' v] & E & Hina). cbn in E. subst k'.
+  pose proof (Hs k v Hina) as H1. rewrite (nodup_assoc k v' b Hb Hin) in H1. inversion H1. subst v'.
+  apply nodup_assoc; assumption.
+Qed.
+Lemma meta_eqb_trans a b c : meta_eqb a b = true -> meta_eqb b c = true -> meta_eqb a c = true.
+Proof.
+  intros H1 H2. apply meta_eqb_sub in H1, H2. destruct H1 as [L1 S1], H2 as [L2 S2]. apply meta_eqb_sub.
+  split; [congruence|]. intros k v Hin. apply S2. apply assoc_In. apply S1, Hin.
+Qed.
+Lemma locs_eqb_eq a : forall b, locs_eqb a b = true <-> a = b.
+Proof.
+  induction a as [|[s e] a IH]; intros [|[s' e'] b]; cbn [locs_eqb]; split; intros H; try discriminate; try reflexivity.
+  - apply andb_prop in H. destruct H as [H H3]. apply andb_prop in H. destruct H as [H1 H2].
+    apply Z.eqb_eq in H1, H2. apply IH in H3. congruence.
+  - inversion H; subst. rewrite !Z.eqb_refl. cbn. apply IH. reflexivity.
+Qed.
+Lemma elem_eqb_parts x y : elem_eqb x y = true <->
+  efeat x = efeat y /\ edata x = edata y /\ elocs x = elocs y /\ meta_eqb (emeta x) (emeta y) = true.
+Proof.
+  unfold elem_eqb. rewrite !andb_true_iff, eqb_true_iff, str_eqb_eq, locs_eqb_eq. tauto.
+Qed.
+Lemma elem_eqb_equiv :
+  (forall x, meta_ok x = true -> elem_eqb x x = true) /\
+  (forall x y, meta_ok x = true -> meta_ok y = true -> elem_eqb x y = true -> elem_eqb y x = true) /\
+  (forall x y z, elem_eqb x y = true -> elem_eqb y z = true -> elem_eqb x z = true).
+Proof.
+  repeat split.
+  - intros x Hx. apply elem_eqb_parts. repeat split; try reflexivity. apply meta_eqb_refl, Hx.
+  - intros x y Hx Hy H. apply elem_eqb_parts in H. destruct H as (H1 & H2 & H3 & H4). apply elem_eqb_parts.
+    repeat split; try congruence. apply meta_eqb_sym; assumption.
+  - intros x y z H1 H2. apply elem_eqb_parts in H1, H2. destruct H1 as (A1 & A2 & A3 & A4), H2 as (B1 & B2 & B3 & B4).
+    apply elem_eqb_parts. repeat split; try congruence. eapply meta_eqb_trans; eassumption.
+Qed.
+Lemma elem_ok_meta_ok f x : elem_ok f x = true -> meta_ok x = true.
+Proof. unfold elem_ok, meta_ok. intros H. repeat (apply andb_prop in H; destruct H as [H ?]). assumption. Qed.
+(* so membership respects equality: an element equal to a member is a member *)
+Lemma mem_respects x y l : elem_eqb x y = true -> mem y l = true -> mem x l = true.
+Proof.
+  intros Hxy H. apply existsb_exists in H. destruct H as (z & Hz & Hyz). apply existsb_exists. exists z. split; [exact Hz|].
+  eapply (proj2 (proj2 elem_eqb_equiv)); eassumption.
+Qed.
+
+(* ------------------------------------------------------------------ sort: default keys *)
+Lemma lex_le_true (le : elem -> elem -> bool) x y : lex le le_true x y = le x y.
+Proof. unfold lex, le_true. destruct (le x y), (le y x); reflexivity. Qed.
+Lemma sorted_ext (le1 le2 : elem -> elem -> bool) l : (forall x y, le1 x y = le2 x y) ->
+  StronglySorted (fun x y => le1 x y = true) l -> StronglySorted (fun x y => le2 x y = true) l.
+Proof.
+  intros E. induction 1 as [|x r Hr IH Hall]; constructor; [exact IH|].
+  eapply Forall_impl; [|exact Hall]. intros y Hy. cbn beta in *. rewrite <- E. exact Hy.
+Qed.
+(* one key: sorted by that key, ties in input order *)
+Lemma sort_one_key k r objs :
+  let le := dir r (key_le k) in
+  m_sort (KsTuple [k]) r objs = isort le objs /\
+  StronglySorted (fun x y => le x y = true) (m_sort (KsTuple [k]) r objs) /\
+  (forall a, filter (eqv le a) (m_sort (KsTuple [k]) r objs) = filter (eqv le a) objs).
+Proof.
+  intros le. destruct (sort_spec (KsTuple [k]) r objs) as (H1 & _ & H3 & H4). cbn [keyfuncs] in *.
+  assert (E : forall x y, lexle [k] r x y = le x y) by (intros; apply lex_le_true).
+  split; [reflexivity|]. split.
+  - eapply sorted_ext; [exact E|exact H3].
+  - intros a. specialize (H4 a).
+    assert (Ef : forall l, filter (eqv (lexle [k] r) a) l = filter (eqv le a) l).
+    { intros l. apply filter_ext. intros z. unfold eqv. rewrite !E. reflexivity. }
+    rewrite <- !Ef. exact H4.
+Qed.
+Lemma default_feature_order x y : efeat x = true -> efeat y = true ->
+  key_le KDefault x y =
+  negb (if pv_eqb (mget k_seqid y) (mget k_seqid x) then rng_ltb y x else pv_ltb (mget k_seqid y) (mget k_seqid x)).
+Proof. intros Hx Hy. cbn [key_le]. unfold elem_ltb. rewrite Hx, Hy. destruct (pv_eqb (mget k_seqid y) (mget k_seqid x)); reflexivity. Qed.
+Lemma default_seq_order x y : key_le (KMeta k_id) x y = negb (pv_ltb (mget k_id y) (mget k_id x)).
+Proof. reflexivity. Qed.
+Lemma rng_ltb_meaning x y : rng_ltb x y = (Z.ltb (fst (rng x)) (fst (rng y)) || (Z.eqb (fst (rng x)) (fst (rng y)) && Z.ltb (snd (rng x)) (snd (rng y)))).
+Proof. unfold rng_ltb. destruct (rng x), (rng y). reflexivity. Qed.
+
+(* ------------------------------------------------------------------ reflected operators, groupby leaves, matching *)
+Lemma setops_reflected a b x :
+  (In x (m_setop 4 a b) <-> In x b /\ mem x a = true) /\
+  (In x (m_setop 5 a b) <-> In x b \/ (In x a /\ mem x b = false)) /\
+  (In x (m_setop 6 a b) <-> In x a /\ mem x b = false) /\
+  (In x (m_setop 7 a b) <-> In x (op_or b a) /\ mem x (op_and b a) = false).
+Proof.
+  destruct (setops_spec b a x) as (H1 & H2 & _ & H4). destruct (setops_spec a b x) as (_ & _ & H3 & _).
+  cbn [m_setop]. tauto.
+Qed.
+Lemma group_nonempty (f : elem -> pv) objs v : In v (first_occ (map f objs)) ->
+  filter (fun x => pv_eqb (f x) v) objs <> [].
+Proof.
+  intros H. apply first_occ_In, in_map_iff in H. destruct H as (x & E & Hx).
+  intros Hnil. assert (Hin : In x (filter (fun x0 => pv_eqb (f x0) v) objs)) by (apply filter_In; split; [exact Hx|apply pv_eqb_eq, E]).
+  rewrite Hnil in Hin. exact Hin.
+Qed.
+Lemma matches_meaning x s :
+  mget k_type x = PStr s ->
+  (forall u, matches (TOne u) x = str_eqb (lower s) (lower u)) /\
+  (forall l, matches (TMany l) x = existsb (fun u => str_eqb (lower s) (lower u)) l).
+Proof.
+  intros H. unfold matches, type_matches. rewrite H. split; [reflexivity|]. intros l.
+  induction l as [|u l IH]; [reflexivity|]. cbn [map existsb]. rewrite IH. reflexivity.
+Qed.
+
+Lemma noninplace_pure cur conds ks t code b : N.ltb code 8 = true ->
+  step_next (HFilter false conds) cur = cur /\ step_next (HGroup ks) cur = cur /\ step_next (HSelect t) cur = cur /\
+  step_next (HGet t) cur = cur /\ step_next HTodict cur = cur /\ step_next (HSetop code b) cur = cur.
+Proof.
+  intros H. repeat split. cbn [step_next]. destruct (N.leb 8 code) eqn:E; [|reflexivity].
+  apply N.leb_le in E. apply N.ltb_lt in H. lia.
+Qed.
